@@ -135,7 +135,17 @@ def check(case, rec=None):
                 ok, n2 = guard(cImageD11.sparse_connectedpixels_splat, v, i, j, th, sl, Z, ns, nf)
             elif name == "sparseframe":
                 fr = sparseframe.sparse_frame(i, j, im.shape, pixels={"intensity": v})
-                ok, n2 = guard(sparseframe.sparse_connected_pixels, fr, threshold=th)
+                # the frame may carry the cut it was segmented with; an explicit threshold (0 included) overrides
+                # it, threshold=None means "use the recorded one"
+                mode = (case["spec"]["seed"] + case["levels"]) % 3
+                if mode == 1:
+                    fr.set_pixels("intensity", v, {"threshold": 10.0 * case["levels"] + 5.0 if th < 10 else 0.0})
+                    ok, n2 = guard(sparseframe.sparse_connected_pixels, fr, threshold=th)
+                elif mode == 2:
+                    fr.set_pixels("intensity", v, {"threshold": th})
+                    ok, n2 = guard(sparseframe.sparse_connected_pixels, fr)
+                else:
+                    ok, n2 = guard(sparseframe.sparse_connected_pixels, fr, threshold=th)
                 if ok:
                     sl = fr.pixels["connectedpixels"]
                     if fr.meta["connectedpixels"].get("nlabel") != n2:
